@@ -338,6 +338,8 @@ fn worker_loop<S: Stages>(st: &S, slot: &Slot, log: &Log, stage: u32, start: u64
 }
 
 fn child_main<S: Stages>(st: &'static S, slot: &'static Slot, log_path: PathBuf) -> ! {
+    // do not outlive the parent
+    unsafe { libc::prctl(libc::PR_SET_PDEATHSIG, libc::SIGKILL) };
     SLOT.store(slot as *const Slot as *mut Slot, Release);
     let file = std::fs::OpenOptions::new().create(true).append(true).open(&log_path).unwrap_or_else(|_| unsafe { libc::_exit(90) });
     let log: &'static Log = Box::leak(Box::new(Log { file: Mutex::new(file) }));
